@@ -16,8 +16,16 @@ print(' '.join(c['property_id'] for c in m['checks']))")
 rc=0
 for id in $IDS; do
   low=$(echo "$id" | tr 'A-Z' 'a-z')
-  echo "[setup] lake build AbacusVerif.Props.$id drv_$low"
-  if ! lake build "AbacusVerif.Props.$id" "drv_$low" > "/tmp/abverif_setup_$id.log" 2>&1; then
+  # the modules the check will ask for (its LEAN_MODULES: the property file plus link / width / table files)
+  MODS=$(/venv/bin/python -c "
+import re, sys
+src = open('$HERE/harness/props/$low.py').read()
+m = re.search(r'^LEAN_MODULES\s*=\s*\[([^\]]*)\]', src, re.M)
+mods = re.findall(r\"'([A-Za-z0-9_.]+)'\", m.group(1)) if m else []
+print(' '.join(mods or ['AbacusVerif.Props.$id']))" 2>/dev/null)
+  [ -z "$MODS" ] && MODS="AbacusVerif.Props.$id"
+  echo "[setup] lake build $MODS drv_$low"
+  if ! lake build $MODS "drv_$low" > "/tmp/abverif_setup_$id.log" 2>&1; then
     echo "[setup] WARNING: build of $id failed (the check will report it):"
     tail -n 20 "/tmp/abverif_setup_$id.log"
   fi
